@@ -385,7 +385,7 @@ def run(chk):
     chk.rule = ("a case is a new workbook, one or more batches of style / height / width / hidden assignments to cells, rows "
                 "and columns, and 2-3 rounds of save + reload; cases = the minimal example of every open finding, behaviours of "
                 "the bounded model (<= 2 carriers over the one-attribute-variant palette; quick: a seeded sample of 3000), "
-                "TLC-simulated histories over random styles, seeded random workbooks with 1..60 and 100..600 distinct styles "
+                "TLC-simulated histories over random styles, seeded random workbooks with 1..60 (quick: 1..40) and 100..600 distinct styles "
                 "(near-duplicates, key-adjacent fonts, adjacent equal columns, grid limits); distinct = different step lists, "
                 "non-trivial = at least one styled carrier")
     i0 = chk.extra["cases"]["finding_examples"]
